@@ -241,6 +241,7 @@ def _with_units(p: dict, rng: random.Random) -> dict:
 
 def build_jobs(tier: str) -> list:
     rng = random.Random(seed() * 7368787 + 9)
+    rng_units = random.Random(seed() * 7368787 + 909)      # (a stream of its own: the older job classes keep theirs)
     n = 230 if tier == 'quick' else 2600
     lifetimes = [1, 2, 3, 5, 8, 13, 20, 25, 30, 35, 40] if tier == 'quick' else list(range(1, 41)) + [50, 60, 75, 99, 100]
     jobs = []
@@ -270,8 +271,8 @@ def build_jobs(tier: str) -> list:
             tag += '+sentinel'
         if k % 6 == 2:
             # a unit requested for a column of the revenue table: the figures are converted and the column heading names that unit
-            for col in rng.sample(['Electricity Sale Price Model', 'Heat Sale Price Model', 'Cooling Sale Price Model'], 2):
-                q[f'Units:{col}'] = rng.choice(['USD/kWh', 'USD/MWh'])
+            for col in rng_units.sample(['Electricity Sale Price Model', 'Heat Sale Price Model', 'Cooling Sale Price Model'], 2):
+                q[f'Units:{col}'] = rng_units.choice(['USD/kWh', 'USD/MWh'])
             tag += '+price-units'
         jobs.append((tag, gen.to_text(q)))
     for name, text in sim.example_inputs().items():
